@@ -621,15 +621,20 @@ class Ovld:
                 f"There is already a method for {sigstring(sig.types)}"
             )
 
+        defns = dict(self._defns)
+
         def _set(sig, fn):
-            if sig in self._defns:
+            if sig in defns:
                 # Push down the existing handler with a lower tiebreak
                 msig = replace(sig, tiebreak=sig.tiebreak - 1)
-                _set(msig, self._defns[sig])
-            self._defns[sig] = fn
+                _set(msig, defns[sig])
+            defns[sig] = fn
 
         built = self._invalidate()
+        # Worked out on a copy and stored in one assignment: if we are
+        # interrupted, the method set is the old one or the new one
         _set(sig, fn)
+        self._defns = defns
 
         self._update(built)
         return self
